@@ -220,6 +220,7 @@ def analyse(ctx, col, case, info, dev, beh, want, verdict):
     first_seen = {}
     top = -2
     saw_reset = False
+    prev_n = None
     for raw in numbered:
         m = NUMBERED.match(raw)
         n, cmd, cs = int(m.group(1)), m.group(2), int(m.group(3))
@@ -228,12 +229,19 @@ def analyse(ctx, col, case, info, dev, beh, want, verdict):
             return fail("transmitted-checksum-is-not-xor-of-the-line", line=raw.decode("latin1"))
         if cmd.startswith(b"M110"):
             saw_reset = True
+            prev_n = None
             if top >= 0:
                 # a reset after job lines belongs to the end-of-job renumbering
                 pass
             continue
         if not saw_reset:
             return fail("job-line-before-M110-reset", line=raw.decode("latin1"))
+        # transmission either continues with the next number or restarts at a lower one (resend);
+        # it never skips forward: "a resend request makes transmission restart from the requested line"
+        if prev_n is not None and n > prev_n + 1:
+            return fail("transmission-skips-a-line", previous=prev_n, number=n,
+                        mech="c15:wire:skip")
+        prev_n = n
         if n in first_seen:
             if first_seen[n] != raw:
                 return fail("resent-line-differs-from-original", number=n,
